@@ -359,17 +359,24 @@ theorem opt_charges_reach (o : Options) (c : Option CellInfo) (cs : List Call) (
 
 /-! ## the minimum-image factors -/
 
-/-- **mic_dim_spec.**  For a positive cell length `a`, `micDim mic a` is the least integer `n` with `n·a ≥ 2·mic`;
-    it is at least 1 for a positive cutoff. -/
+/-- **mic_dim_spec.**  For a positive cell length `a`, `micDim mic a` is the least integer `n ≥ 1` with `n·a ≥ 2·mic`
+    (at least one copy, and enough copies for the cutoff); for a positive cutoff it is `⌈2·mic / a⌉`, for a cutoff of
+    zero or below it is 1 (the structure as it is already satisfies it). -/
 theorem mic_dim_spec (mic a : Rat) (ha : 0 < a) :
-    2 * mic ≤ (micDim mic a : Rat) * a
-    ∧ (∀ n : Int, 2 * mic ≤ (n : Rat) * a → micDim mic a ≤ n)
-    ∧ (0 < mic → 1 ≤ micDim mic a) := by
+    1 ≤ micDim mic a
+    ∧ 2 * mic ≤ (micDim mic a : Rat) * a
+    ∧ (∀ n : Int, 1 ≤ n → 2 * mic ≤ (n : Rat) * a → micDim mic a ≤ n)
+    ∧ (0 < mic → micDim mic a = Rat.ceil (2 * mic / a))
+    ∧ (mic ≤ 0 → micDim mic a = 1) := by
   unfold micDim
-  refine ⟨?_, ?_, ?_⟩
-  · exact (rat_div_le_iff ha).mp Rat.le_ceil
-  · intro n hn
-    exact Rat.ceil_le_iff.mpr ((rat_div_le_iff ha).mpr hn)
+  have hc : 2 * mic ≤ ((Rat.ceil (2 * mic / a) : Int) : Rat) * a := (rat_div_le_iff ha).mp Rat.le_ceil
+  refine ⟨Int.le_max_left _ _, ?_, ?_, ?_, ?_⟩
+  · have hle : ((Rat.ceil (2 * mic / a) : Int) : Rat) ≤ ((max 1 (Rat.ceil (2 * mic / a)) : Int) : Rat) :=
+      Rat.intCast_le_intCast.mpr (Int.le_max_right _ _)
+    exact Rat.le_trans hc (Rat.mul_le_mul_of_nonneg_right hle (Rat.le_of_lt ha))
+  · intro n h1 hn
+    have : Rat.ceil (2 * mic / a) ≤ n := Rat.ceil_le_iff.mpr ((rat_div_le_iff ha).mpr hn)
+    omega
   · intro hm
     have h0 : ((0 : Int) : Rat) < 2 * mic / a := by
       rw [Rat.lt_div_iff ha]
@@ -377,21 +384,32 @@ theorem mic_dim_spec (mic a : Rat) (ha : 0 < a) :
       simpa using this
     have := Rat.lt_ceil_iff.mpr h0
     omega
+  · intro hm
+    have h0 : 2 * mic / a ≤ ((0 : Int) : Rat) := by
+      rw [rat_div_le_iff ha]
+      have h2 : 2 * mic ≤ 2 * 0 := Rat.mul_le_mul_of_nonneg_left hm (by decide)
+      simpa using h2
+    have := Rat.ceil_le_iff.mpr h0
+    omega
 
 /-- **mic_dims_spec.**  On a cell with positive diagonal `(a₁,a₂,a₃)` each of the three factors is the least integer
-    `nᵢ` with `nᵢ·aᵢ ≥ 2·mic` (so the replicated cell is at least twice the cutoff wide in every direction and no
-    smaller super-cell is), and every factor is ≥ 1 when `mic > 0`. -/
+    `nᵢ ≥ 1` with `nᵢ·aᵢ ≥ 2·mic` (so the replicated cell is at least twice the cutoff wide in every direction, no
+    smaller super-cell is, and no direction is replicated less than once — whatever the sign of the cutoff). -/
 theorem mic_dims_spec (mic : Rat) (d : Rat × Rat × Rat) (h1 : 0 < d.1) (h2 : 0 < d.2.1) (h3 : 0 < d.2.2) :
-    (2 * mic ≤ ((micDims mic d).1 : Rat) * d.1 ∧ (∀ n : Int, 2 * mic ≤ (n : Rat) * d.1 → (micDims mic d).1 ≤ n))
+    (1 ≤ (micDims mic d).1 ∧ 1 ≤ (micDims mic d).2.1 ∧ 1 ≤ (micDims mic d).2.2)
+    ∧ (2 * mic ≤ ((micDims mic d).1 : Rat) * d.1
+        ∧ (∀ n : Int, 1 ≤ n → 2 * mic ≤ (n : Rat) * d.1 → (micDims mic d).1 ≤ n))
     ∧ (2 * mic ≤ ((micDims mic d).2.1 : Rat) * d.2.1
-        ∧ (∀ n : Int, 2 * mic ≤ (n : Rat) * d.2.1 → (micDims mic d).2.1 ≤ n))
+        ∧ (∀ n : Int, 1 ≤ n → 2 * mic ≤ (n : Rat) * d.2.1 → (micDims mic d).2.1 ≤ n))
     ∧ (2 * mic ≤ ((micDims mic d).2.2 : Rat) * d.2.2
-        ∧ (∀ n : Int, 2 * mic ≤ (n : Rat) * d.2.2 → (micDims mic d).2.2 ≤ n))
-    ∧ (0 < mic → 1 ≤ (micDims mic d).1 ∧ 1 ≤ (micDims mic d).2.1 ∧ 1 ≤ (micDims mic d).2.2) := by
+        ∧ (∀ n : Int, 1 ≤ n → 2 * mic ≤ (n : Rat) * d.2.2 → (micDims mic d).2.2 ≤ n))
+    ∧ (mic ≤ 0 → micDims mic d = (1, 1, 1)) := by
   have a := mic_dim_spec mic d.1 h1
   have b := mic_dim_spec mic d.2.1 h2
   have e := mic_dim_spec mic d.2.2 h3
-  exact ⟨⟨a.1, a.2.1⟩, ⟨b.1, b.2.1⟩, ⟨e.1, e.2.1⟩, fun hm => ⟨a.2.2 hm, b.2.2 hm, e.2.2 hm⟩⟩
+  refine ⟨⟨a.1, b.1, e.1⟩, ⟨a.2.1, a.2.2.1⟩, ⟨b.2.1, b.2.2.1⟩, ⟨e.2.1, e.2.2.1⟩, fun hm => ?_⟩
+  show (micDim mic d.1, micDim mic d.2.1, micDim mic d.2.2) = (1, 1, 1)
+  rw [a.2.2.2.2 hm, b.2.2.2.2 hm, e.2.2.2.2 hm]
 
 /-- the factors the plan actually passes satisfy `mic_dims_spec`: an accepted run with `--mic` on an orthorhombic
     cell has a positive diagonal -/
@@ -482,6 +500,8 @@ example : plan { exFull with replicate := some (0, 1, 1) } (some exCell) = .erro
     the guards of `mic_dims_spec` hold for this cell -/
 example : micDims 6 (10, 10, 25 / 2) = (2, 2, 1) := by decide +kernel
 example : micDims 5 (10, 10, 25 / 2) = (1, 1, 1) := by decide +kernel
+/-- a cutoff of zero, or below: one copy in every direction (not zero copies) -/
+example : micDims 0 (10, 10, 25 / 2) = (1, 1, 1) ∧ micDims (-3) (10, 10, 25 / 2) = (1, 1, 1) := by decide +kernel
 example : (0 : Rat) < (10 : Rat) ∧ (0 : Rat) < (25 / 2 : Rat) := by decide +kernel
 
 /-- suffix dispatch as `pathlib` does it -/
